@@ -40,3 +40,12 @@ with open(V + '/seeded/MATRIX.md', 'w') as f:
     f.write('| change | ' + ' | '.join(c[1:] for c in ALL) + ' |\n|---|' + '---|' * len(ALL) + '\n')
     for n in sorted(matrix):
         f.write('| %s | ' % n + ' | '.join(sym.get(matrix[n].get(c, {}).get('exit'), ' ') for c in ALL) + ' |\n')
+    notes = []
+    for n in sorted(matrix):
+        try:
+            d = json.load(open('%s/seeded/%s/meta.json' % (V, n))).get('disposition')
+        except Exception:
+            d = None
+        if d: notes.append('* %s - %s' % (n, d))
+    if notes:
+        f.write('\nKept but not claimed:\n\n' + '\n'.join(notes) + '\n')
